@@ -82,6 +82,9 @@ pub struct Project {
 const FILE_POOL: &[&str] = &[
     "src/commands.rs", "src/models.rs", "src/events.rs", "src/api/users.rs", "src/api/files.rs", "src/domain/types.rs", "src/domain/orders.rs", "src/util/helpers.rs", "src/state.rs", "src/handlers/sync.rs",
     "src/handlers/export.rs", "src/settings.rs",
+    // files that share their name with another one (same depth and different depth): any file order that is
+    // not a total order over full paths shows as nondeterminism here
+    "src/api/commands.rs", "src/domain/users.rs", "src/handlers/types.rs", "src/util/sync.rs", "src/domain/files.rs",
 ];
 const DIR_POOL: &[&str] = &["backend", "core", "features", "services"];
 const TYPE_WORDS: &[&str] = &["User", "Order", "Invoice", "Report", "Session", "Profile", "Ticket", "Asset", "Device", "Folder"];
